@@ -28,3 +28,5 @@ let run (id : string) (ops : string list) (out : out_channel) =
       (hex_of_bytes o.C18Model.o_bytes) (int_of_nat o.C18Model.o_winlen)
       (ints_csv (Stdlib.List.map int_of_z o.C18Model.o_layers))
       (if o.C18Model.o_panic then 1 else 0)) tr
+
+let registered = Registry.register "C18" run
